@@ -31,9 +31,10 @@ MANIFEST = dict(
     note="Lean 4.33 kernel; axioms propext/Classical.choice/Quot.sound at most (audited per theorem every run); "
          "hand-written model tied to hostlist.c/opt.c/split.c by differential execution of the real sources built "
          "from /repo's working tree plus constants regenerated from /repo; glibc strtoul/snprintf/strncpy modelled "
-         "not verified; numeric parts < 2^64; the string-level theorem covers the token level (tokenizer exercised "
-         "by the correspondence, exhaustively for short strings in the thorough tier); harness, generators, gcc, "
-         "ASan/UBSan trusted")
+         "not verified; numeric parts < 2^64; proved at TEXT level: hostlist_create = expand1 (tokenizer included), "
+         "the command line's first comma split is invisible for every text, the whole -w path = expand2; the -x and "
+         "WCOLL/^file contexts and look-up by name are correspondence/oracle only (pinned + generated cases on the "
+         "real pdsh / hostlist_find); harness, generators, gcc, ASan/UBSan trusted")
 
 
 def crash_signature(s, p):
